@@ -52,6 +52,9 @@ def instantiate(I, cls, args, kw):
         except ValueError as e:
             I.raise_py(ValueError, *e.args)
     mod = getattr(cls, '__module__', '') or ''
+    if I.opaque_outside is not None and (mod.startswith('kmip')) and \
+            not any(mod == m or mod.startswith(m + '.') for m in I.opaque_outside):
+        return opaque_external(I, "%s.%s()" % (mod, cls.__name__), args, kw)
     if mod.startswith('kmip') or mod.startswith('contracts'):
         hook = INSTANTIATE_HOOKS.get(cls)
         if hook is not None:
